@@ -462,7 +462,21 @@ def _c11_env_cache(m):
     return all(pool[i] in tainted for i in range(len(pool)) if a[i] != b[i])
 
 
+def _call_limit_acyclic(m):
+    """C07-call-limit-hits-acyclic-graphs / C06-call-limit-hits-many-references: the log is accepted, every other verdict agrees,
+    and the one difference is the call-limit monitor (Sched.callLimitMon: the program is acyclic AND an activation was born
+    with the call-limit error).  The monitor is the definition of the mechanism, so nothing else can be claimed through this."""
+    if m.get("domain") != "sched":
+        return False
+    a, b = m.get("impl", "").split(), m.get("model", "").split()
+    if not a or a[0] != "accept" or len(a) != len(b):
+        return False
+    return [(x, y) for x, y in zip(a, b) if x != y] == [("C07a=1", "C07a=0")]
+
+
 FINDING_PREDICATES = {
+    "C07-call-limit-hits-acyclic-graphs": _call_limit_acyclic,
+    "C06-call-limit-hits-many-references": _call_limit_acyclic,
     "C11-dynamic-cache-ignores-env": _c11_env_cache,
     "C19-cli-values-are-templated": _c19_values_templated,
     "C19-no-value-text-deleted": _c19_no_value_deleted,
@@ -590,8 +604,9 @@ FINDING_PREDICATES.update({
 })
 
 # the sched domain serves seven properties: each compares acceptance + its own verdict(s)
-# (C02v: the value monitor — callee sees what was passed, deferred call sees the exit code; C06k: the key discipline monitor)
-for _pid, _keys in {"C01": ["C01"], "C02": ["C02", "C02v"], "C03": ["C03", "C03s"], "C06": ["C06", "C06k"], "C07": ["C07"], "C13": ["C13"],
+# (C02v: the value monitor — callee sees what was passed, deferred call sees the exit code; C06k: the key discipline monitor;
+#  C07a: an acyclic program does not hit the call limit — open findings C07-call-limit-hits-acyclic-graphs / C06-…-many-references)
+for _pid, _keys in {"C01": ["C01"], "C02": ["C02", "C02v"], "C03": ["C03", "C03s"], "C06": ["C06", "C06k", "C07a"], "C07": ["C07", "C07a"], "C13": ["C13"],
                     "C14": ["C14", "C02v"]}.items():
     for _d in PROPS[_pid]["domains"]:
         if _d["name"] == "sched":
